@@ -2,7 +2,8 @@
    whose meaning is given by C03 (Theorems.sound_complete). *)
 From Coq Require Import ZArith List Bool Lia.
 From CSS Require Import Base.Sx Base.PyList Forest.Spec Forest.Model Forest.Basics Forest.Invariant
-  Forest.Correct Forest.Theorems Forest.Run Forest.Extractor Forest.ExtractorProofs Forest.ExtractorRun.
+  Forest.Correct Forest.Theorems Forest.TerminationRun Forest.Run Forest.Extractor Forest.ExtractorProofs
+  Forest.ExtractorRun.
 Import ListNotations.
 Open Scope Z_scope.
 
@@ -20,8 +21,8 @@ Qed.
 
 Lemma prod_tm_spec fuel root ks b : prod_tm fuel root ks = Some b -> (b = true <-> Pk root ks).
 Proof.
-  unfold prod_tm. fold (add_ops ks).
-  destruct (run pick0 fuel init (add_ops ks)) as [st|] eqn:E; [|discriminate].
+  unfold prod_tm. cbv zeta. fold (add_ops ks).
+  destruct (run pick0 (enough fuel (add_ops ks)) init (add_ops ks)) as [st|] eqn:E; [|discriminate].
   intros [= <-]. destruct (sound_complete _ _ _ _ E root) as [A _].
   rewrite keys_of_add_ops in A. exact A.
 Qed.
@@ -39,18 +40,18 @@ Hypothesis Hex : extract fuel root ks = Ok res.
 
 Lemma extract_inv :
   exists st sub,
-    run pick0 fuel init (add_ops ks) = Some st /\
+    run pick0 (enough fuel (add_ops ks)) init (add_ops ks) = Some st /\
     sub = map (fun i => nth i ks (mkb dummy 0)) (pumping_subuniverse st) /\
     minimize (prod_tm fuel root) (filter (in_bucket 0) sub) (filter (in_bucket 1) sub)
              (filter (in_bucket 2) sub) (filter (in_bucket 3) sub) = Ok res.
 Proof.
-  unfold extract in Hex. fold (add_ops ks) in Hex.
-  destruct (run pick0 fuel init (add_ops ks)) as [st|] eqn:E; [|discriminate].
+  unfold extract in Hex. cbv zeta in Hex. fold (add_ops ks) in Hex.
+  destruct (run pick0 (enough fuel (add_ops ks)) init (add_ops ks)) as [st|] eqn:E; [|discriminate].
   exists st, (map (fun i => nth i ks (mkb dummy 0)) (pumping_subuniverse st)). auto.
 Qed.
 
-Lemma sub_in st k :
-  run pick0 fuel init (add_ops ks) = Some st ->
+Lemma sub_in fuel0 st k :
+  run pick0 fuel0 init (add_ops ks) = Some st ->
   In k (map (fun i => nth i ks (mkb dummy 0)) (pumping_subuniverse st)) ->
   In k ks /\ pumps (map bk_key ks) (parent (bk_key k)) /\
   forall c s, In (c, s) (kids (bk_key k)) -> pumps (map bk_key ks) c.
@@ -81,7 +82,7 @@ Theorem extract_subset : forall k, In k res ->
 Proof.
   destruct extract_inv as (st & sub & E & Hs & Hm). intros k Hk.
   destruct (minimize_spec _ (Pk root) (Pk_mono root) (prod_tm_spec fuel root) _ _ _ _ _ Hm)
-    as (Hi & _). apply Hi in Hk. apply buckets_sub in Hk. subst sub. apply (sub_in st k E Hk).
+    as (Hi & _). apply Hi in Hk. apply buckets_sub in Hk. subst sub. apply (sub_in _ st k E Hk).
 Qed.
 
 (* 2. the start class pumps w.r.t. the extracted keys alone *)
@@ -121,12 +122,12 @@ Theorem extract_reverse_last :
   forall k, In k res -> bk_bucket k <> 0%nat.
 Proof.
   destruct extract_inv as (st & sub & E & Hs & Hm). intros (st' & E' & HP) k Hk.
-  rewrite E in E'. injection E' as <-. rewrite <- Hs in HP.
+  assert (st = st') as <- by exact (run_fuel_irrelevant _ _ _ _ _ _ _ E E'). rewrite <- Hs in HP.
   destruct (minimize_spec _ (Pk root) (Pk_mono root) (prod_tm_spec fuel root) _ _ _ _ _ Hm)
     as (_ & _ & _ & Hrev).
   assert (Pk root (filter (in_bucket 1) sub ++ filter (in_bucket 2) sub ++ filter (in_bucket 3) sub)) as HP'.
   { eapply Pk_mono; [|exact HP]. intros x Hx. apply filter_In in Hx. destruct Hx as [Hx Hb].
-    assert (In x ks) as Hxk by (subst sub; apply (sub_in st x E Hx)).
+    assert (In x ks) as Hxk by (subst sub; apply (sub_in _ st x E Hx)).
     pose proof (buckets_cover sub x Hx (buckets_ok x Hxk)) as Hc.
     rewrite in_app_iff in Hc. destruct Hc as [Hc|Hc]; auto.
     apply filter_In in Hc. destruct Hc as [_ Hc]. rewrite Hc in Hb. discriminate. }
